@@ -53,7 +53,9 @@
    slot and appends exactly one notification whose notifier, feature, kind and
    old/new payload describe that change; an empty clear reports nothing. *)
 From Coq Require Import ZArith List Bool Arith.
-From PyecoreV Require Import Lib.PyBase Lib.PyList Model.Kernel Proofs.KernelFacts Proofs.C05Proofs Proofs.C05Refs.
+From PyecoreV Require Import Lib.PyBase Lib.PyList Model.Kernel Model.KernelIO Proofs.KernelFacts Proofs.C05Proofs Proofs.C05Refs
+  Gen.KernelTables Proofs.KernelTablesProofs.
+Open Scope nat_scope.
 Import ListNotations.
 
 Theorem C05_attribute_set_reported_partial :
@@ -260,3 +262,10 @@ Example C05_mirror_witness :
                     | l1, l2 => forallb (fun v => vmem v l2) l1 && forallb (fun v => vmem v l1) l2 end)
           (list_prod [0; 1; 2; 3] [0; 1; 2; 3]) = true.
 Proof. exact mirror_witness. Qed.
+
+(* the kind numbers compared between the model's log and the implementation's notifications are the values of
+   notification.Kind, TRANSLATED from the source on every run (Gen/KernelTables.v), member by member *)
+Theorem C05_kind_codes_are_the_enumeration :
+  map (fun k => (kind_name k, kind_code k)) all_kinds = kind_values.
+Proof. exact kind_codes_are_the_enum. Qed.
+Print Assumptions C05_kind_codes_are_the_enumeration.
